@@ -136,7 +136,9 @@ namespace cnl {
                          ? _impl::overflow_operator<
                                  Operator, _impl::common_overflow_tag_t<LhsTag, RhsTag>,
                                  _impl::polarity::negative>{}(lhs, rhs)
-                         : Operator{}(lhs, rhs);
+                 // zero shifted by any amount is zero; the built-in shift is undefined for counts >= width
+                 : (lhs == Lhs{0}) ? _impl::op_result<Operator, Lhs, Rhs>{}
+                                   : Operator{}(lhs, rhs);
         }
     };
 
